@@ -356,7 +356,7 @@ PROPS["C14"] = dict(
           "1, two known members): nothing delivered / one genuine message of each of 21 kinds (ping, anonymous ping, indirect ping, ack, nack, alive new/newer, "
           "suspect, dead, leave, suspicion about the node, user, compound, compressed, CRC; stream push/pull join and anti-entropy, compressed push/pull, user, "
           "TCP ping) / a modified copy: (also enumerated: every single-bit flip of every sealed message <= 200 bytes, every 24th bit in the quick tier) bit flip or byte substitution anywhere or targeted at version, nonce, body, tag, stream type byte, length prefix, label "
-          "header; truncation, extension, splice of two ciphertexts, other/no/added label header, other associated label, foreign key, another cluster's complete traffic (its header and its associated label), key removed before delivery (the middle or the last one; the other must keep working) or while the stream is being read, key installed after sealing, secondary key, plaintext, double sealing. Outcome = state dump + delegate log + decoded replies to the sender "
+          "header; truncation, extension, splice of two ciphertexts, other/no/added label header, other associated label, foreign key, another cluster's complete traffic (its header and its associated label), key removed before delivery (the middle or the last one; the other must keep working) or while the stream is being read, key installed after sealing, secondary key, plaintext, double sealing; in one case of four the receiver was created with an empty keyring and keyed at run time (it must behave exactly like one keyed at creation). Outcome = state dump + delegate log + decoded replies to the sender "
           "+ health; oracle: outcome(modified) equals outcome(nothing) (a rejected stream may add one generic error reply) or outcome(genuine), and must be "
           "nothing for foreign/removed keys, wrong labels and plaintext. non-trivial = non-identity modification of a message whose genuine delivery is visible; "
           "distinct = distinct (message, modification, configuration); thorough adds native coverage-guided fuzzing of the same oracle (message, configuration, XOR mask and offset over the sealed bytes)"),
@@ -424,12 +424,14 @@ PROPS["C15"] = dict(
           "instant). Oracle on every packet and every stream write handed to the transport by a real node: the cleartext label header is exactly the "
           "configured label, the rest opens with the independent AES-GCM implementation under the sender's primary key at the send instant with the label "
           "([type,len,label] for streams) as associated data, the encryption version matches the sender's protocol version, and a per-case canary embedded "
-          "in node names, metadata, user messages, user state and ack payloads occurs in no tapped byte string. Coverage rule: every send-site class must be "
+          "in node names, metadata, user messages, user state and ack payloads occurs in no tapped byte string; the same histories also run under the race detector (a send buffer shared between concurrent sends). Coverage rule: every send-site class must be "
           "observed (otherwise inconclusive). non-trivial = more than 100 buffers checked in the case; distinct = distinct plans"),
     tests=[
         dict(name="conf", run="^TestOutboundConfidentiality$",
-             quick=dict(shards=16, checks=6, timeout=900),
-             thorough=dict(shards=16, checks=250, timeout=3400)),
+             quick=dict(shards=14, checks=7, timeout=900),
+             thorough=dict(shards=14, checks=280, timeout=3400)),
+        # a buffer that is still being written to the wire while another send reuses it shows up as a data race long before the unlucky bytes do
+        dict(name="conf-race", run="^TestOutboundConfidentiality$", race=True, quick=dict(shards=2, checks=3, timeout=900), thorough=dict(shards=2, checks=60, timeout=3400)),
     ],
     required_labels=dict(both=["TestOutboundConfidentiality/site:" + s for s in C15_SITES]),
     assumptions=CLUSTER_ASSUMPTIONS + [
